@@ -235,7 +235,12 @@ func (s *Sim) buildTx(st kernel.Step) *types.Transaction {
 		if st.Op == "updchain" {
 			m = side_chain_manager.UPDATE_SIDE_CHAIN
 		}
-		p := &side_chain_manager.RegisterSideChainParam{Address: o.Address, ChainId: ChainID(a(0)), Router: uint64(a(1)), Name: fmt.Sprintf("chain%d-%d", a(0), a(3)),
+		name := fmt.Sprintf("chain%d-%d", a(0), a(3))
+		if a(3) >= 100 {
+			// a record far larger than the per-transaction write buffer (16 KiB)
+			name += strings.Repeat("n", 20000+int(a(3)%7)*1000)
+		}
+		p := &side_chain_manager.RegisterSideChainParam{Address: o.Address, ChainId: ChainID(a(0)), Router: uint64(a(1)), Name: name,
 			BlocksToWait: uint64(1 + a(3)%3), CCMCAddress: []byte{0xcc, byte(a(0)), byte(a(3))}, ExtraInfo: []byte{byte(a(3))}}
 		if uint64(a(1)) == utils.RIPPLE_ROUTER {
 			// a ripple-router chain carries its asset operator (the registering owner) in ExtraInfo
